@@ -193,10 +193,7 @@ impl Database {
         #[cfg(feature = "verif")]
         crate::verif::yield_point("has_arbiter.watchers.read");
         let watchers = self.watchers.map.read().unwrap();
-        // An arbiter that left (unwatch-all, end of its connection) leaves an empty list behind
-        watchers
-            .get(CONFLICTS_KEY)
-            .map_or(false, |senders| !senders.is_empty())
+        watchers.contains_key(CONFLICTS_KEY)
     }
 
     pub fn register_arbiter(&self, client: &Client) -> Response {
